@@ -52,6 +52,15 @@ def doWrite (st : St) (k : Kind) (op : WOp) : St × String :=
   let r := writeOp k st.we op
   ({ st with we := r.1, out := st.out ++ r.2 }, hex r.2)
 
+/-- bytes handed to `write` by the memory-level writers (`putScalarMem` / `putArrayMem`; theorems `C16.scalar_write_mem`,
+    `C16.array_write_mem`: the same bytes as `writeOp`) -/
+def doBytes (st : St) (bs : List UInt8) : St × String :=
+  ({ st with out := st.out ++ bs }, hex bs)
+
+/-- the elements held by an array's storage, as the harness dumps them (each value most significant byte first) -/
+def dumpMem (t : Ty) (n : Nat) (mem : List UInt8) : String :=
+  hex ((memVals (sizeofT t) n mem).flatMap fun v => (leBytes (sizeofT t) v).reverse)
+
 def step (st : St) (ts : List String) : St × String :=
   match ts with
   | ["new", ks, es] =>
@@ -79,14 +88,23 @@ def step (st : St) (ts : List String) : St × String :=
   | ["w", tys, h] =>
     if st.reading then (st, "closed") else
     match parseTy tys, hexNat h with
-    | some t, some v => doWrite st k (.scalar t v)
+    | some t, some v =>
+      -- the write runs on the caller's object; the harness reports an argument that is not what it was
+      let m := putScalarMem k st.we t (norm t v)
+      if m.2 != objRep (sizeofT t) (norm t v) then
+        (st, "err scalar-argument-modified-by-the-write " ++ hexW (sizeofT t) (objVal m.2))
+      else doBytes st m.1
     | _, _ => (st, "bad-op")
   | ["wa", tys, h] =>
     if st.reading then (st, "closed") else
     match parseTy tys, unhex h with
     | some t, some bs =>
       if bs.length % sizeofT t != 0 then (st, "bad-op") else
-      doWrite st k (.array t (chunks (sizeofT t) bs))
+      let vs := (chunks (sizeofT t) bs).map (norm t)
+      let m := putArrayMem k st.we t vs
+      if m.2 != arrayMem t vs then
+        (st, "err array-argument-modified-by-the-write " ++ dumpMem t vs.length m.2)
+      else doBytes st m.1
     | _, _ => (st, "bad-op")
   | ["av", ks, tys, h] =>
     match ks.toNat?, parseTy tys, unhex h with
@@ -104,10 +122,13 @@ def step (st : St) (ts : List String) : St × String :=
       match st.vars.find? (·.1 == slot % 4) with
       | none => (st, "no-var")
       | some (_, t, vs) =>
-        -- a write is a function of (order, value): the variable keeps its value
-        let r := doWrite st k (.array t vs)
-        let dump := vs.flatMap fun v => (leBytes (sizeofT t) (norm t v)).reverse
-        (r.1, r.2 ++ " " ++ hex dump)
+        -- the write runs on the variable's storage; the variable holds afterwards what that storage holds
+        -- (`C16.array_argument_unchanged`: the values it held before)
+        let vs := vs.map (norm t)
+        let m := putArrayMem k st.we t vs
+        let after := memVals (sizeofT t) vs.length m.2
+        let r := doBytes st m.1
+        ({ r.1 with vars := (slot % 4, t, after) :: st.vars.filter (·.1 != slot % 4) }, r.2 ++ " " ++ dumpMem t vs.length m.2)
   | "was" :: hs =>
     if st.reading then (st, "closed") else
     match hs.mapM unhex with
